@@ -26,7 +26,7 @@ package protocol
 //@   ensures max(lo, minVersion) <= min(hi, maxVersion) ==> result == min(hi, maxVersion)
 //@   ensures max(lo, minVersion) <= min(hi, maxVersion) ==> minVersion <= result && result <= maxVersion && lo <= result && result <= hi
 
-//@ property C20 C17
+//@ property C20 C17 C04
 
 // ---- reflection-backed accessors: trusted (reflect / unsafe are outside the verifier's reach) ----
 //@ func (array).length
